@@ -332,6 +332,7 @@ class ElfiModel(GraphicalModel):
         updating_name : str
 
         """
+        self._check_update(name, updating_name)
         update_observed = False
         obs = None
         if updating_name in self.observed:
